@@ -83,7 +83,7 @@ class Exec(object):
             raise ValueError("unknown step %r" % (s,))
         self.executed += 1
 
-    def run(self, hist, stop_on_violation=True):
+    def run(self, hist, stop_on_violation=True, stop_prop=None):
         if not self.started:
             self.start()
         for s in hist:
@@ -91,7 +91,8 @@ class Exec(object):
                 break
             self.step(s)
             if stop_on_violation and self.tracker is not None and self.tracker.violations:
-                break
+                if stop_prop is None or any(stop_prop in v["props"] for v in self.tracker.violations):
+                    break
         return self
 
     def quiesce(self):
